@@ -314,7 +314,8 @@ def build(cfg) -> Built:
     else:
         form = integrand * meas(md)
     if sub == "all+id":
-        form = form + 3.0 * core * M(3, **dom_kw)
+        # the id-integral uses a later coefficient (g) and skips the earlier one (f)
+        form = form + 3.0 * (g(sf) if itype == "dS" else g) * core * M(3, **dom_kw)
     B.form = form
     return B
 
